@@ -19,12 +19,12 @@ import (
 )
 
 const (
-	// a request with error_detail for a type that has no watch panics (nil dereference in the
-	// UpdateWatchedResource closure of ShouldRespond / shouldRespondDelta)
-	findK14 = "K14-nack-unwatched-type-nil-deref"
 	// shouldRespondDelta drops resource_names_subscribe/unsubscribe piggybacked on an ACK whose
 	// nonce a server push made stale
 	findK13 = "K13-delta-stale-ack-drops-piggybacked-subscription"
+	// a request answered by ShouldRespond for which nothing is sent (generator returned nil) leaves
+	// NonceSent empty; the next request, carrying the nonce the client still holds, is classified stale
+	findK15 = "K15-answered-without-send-then-stale"
 )
 
 type gen struct {
@@ -109,7 +109,6 @@ type runner struct {
 	e      *env
 	steps  []Step
 	tags   map[string]bool
-	k14    bool
 	dead   bool
 	dropCh bool // a delta request carrying changes met the stale branch
 }
@@ -120,16 +119,12 @@ func (r *runner) do(o Op) Step {
 	tag := classify(r.e, o)
 	r.tags[tag] = true
 	r.tags["type-"+types[o.T].Tag] = true
-	unwatchedNack := (o.Kind == kReq || o.Kind == kDReq) && o.Err >= 0 && r.e.watch(o.T) == nil
 	if tag == "dstale-with-changes" {
 		r.dropCh = true
 	}
 	s := r.e.exec(o)
 	if s.Crash {
 		r.dead = true
-		if unwatchedNack {
-			r.k14 = true
-		}
 	}
 	if s.Respond {
 		r.tags["respond"] = true
@@ -152,9 +147,7 @@ func (g *gen) emit(id int, kind string, r *runner, expect []Expect, extraFinding
 	if r.dead {
 		tags = append(tags, "crashed")
 	}
-	if r.k14 {
-		g.c.FindingOf[id] = findK14
-	} else if extraFinding != "" {
+	if extraFinding != "" {
 		g.c.FindingOf[id] = extraFinding
 	}
 	if len(r.e.bad) > 0 {
@@ -397,8 +390,9 @@ func (g *gen) loopSotw(rnd *vlib.Rand, id int) {
 		s2c = s2c[1:]
 		cn[m.t] = m.nonce
 		o := Op{Kind: kReq, T: m.t, Names: append([]int{}, S[m.t]...), Nonce: m.nonce, Err: -1}
-		// like Envoy, the reference client does not reject a response for a type it no longer watches
-		if rnd.Chance(nackPct) && !(len(S[m.t]) == 0 && !xds.IsWildcardTypeURL(types[m.t].URL)) {
+		// the client may reject any response, also one for a type it has meanwhile unsubscribed from
+		// (the NACK then meets no watch: the K14 path, repaired)
+		if rnd.Chance(nackPct) {
 			o.Err = 1 + rnd.Intn(2)
 		}
 		c2s = append(c2s, o)
@@ -612,7 +606,7 @@ func (g *gen) witness(id int, kind string, ops []Op, expect []Expect, finding st
 
 func (g *gen) witnesses() {
 	no := -1
-	// K14, SotW: the very first message for a type is a NACK
+	// K14 (repaired in /repo a0e93fb), SotW: the very first message for a type is a NACK
 	g.witness(g.id(), "witness-k14-sotw", []Op{{Kind: kReq, T: tCDS, Names: nil, Nonce: 1, Err: 1}}, nil, "")
 	// K14, SotW: NACK after an unsubscribe deleted the watch
 	g.witness(g.id(), "witness-k14-sotw-unsub", []Op{
@@ -662,12 +656,27 @@ func (g *gen) witnesses() {
 		{Kind: kDReq, T: tEDS, Nonce: 0, Err: no},
 		{Kind: kDReq, T: tEDS, Nonce: 0, Err: no},
 	}, nil, "")
-	// answered but nothing sent (generator returned nil): NonceSent stays empty and the client's
-	// retained nonce is then classified stale
-	g.witness(g.id(), "witness-respond-without-send", []Op{
-		{Kind: kReq, T: tRDS, Names: []int{1}, Nonce: 7, Err: no},
-		{Kind: kReq, T: tRDS, Names: []int{1, 2}, Nonce: 7, Err: no},
-	}, nil, "")
+	// K15 (the witness of C04_record_matches_client_sotw_refuted), one stream, conformant client:
+	// subscribe {a}, ACK, unsubscribe, re-subscribe {a} - answered but nothing sent (generator returned
+	// nil) - then {a,b} with the nonce the client still holds: classified stale, never applied
+	g.witness(g.id(), "witness-k15-respond-without-send", []Op{
+		{Kind: kReq, T: tSDS, Names: []int{1}, Nonce: 0, Err: no},
+		{Kind: kSend, T: tSDS, Nonce: 1, OK: true, Err: no},
+		{Kind: kReq, T: tSDS, Names: []int{1}, Nonce: 1, Err: no},
+		{Kind: kReq, T: tSDS, Names: nil, Nonce: 1, Err: no},
+		{Kind: kReq, T: tSDS, Names: []int{1}, Nonce: 1, Err: no},
+		{Kind: kReq, T: tSDS, Names: []int{1, 2}, Nonce: 1, Err: no},
+	}, []Expect{{tSDS, []int{1, 2}}}, findK15)
+	// same exchange, but the re-subscription is answered with a response: everything is applied
+	g.witness(g.id(), "witness-k15-with-send", []Op{
+		{Kind: kReq, T: tSDS, Names: []int{1}, Nonce: 0, Err: no},
+		{Kind: kSend, T: tSDS, Nonce: 1, OK: true, Err: no},
+		{Kind: kReq, T: tSDS, Names: []int{1}, Nonce: 1, Err: no},
+		{Kind: kReq, T: tSDS, Names: nil, Nonce: 1, Err: no},
+		{Kind: kReq, T: tSDS, Names: []int{1}, Nonce: 1, Err: no},
+		{Kind: kSend, T: tSDS, Nonce: 2, OK: true, Err: no},
+		{Kind: kReq, T: tSDS, Names: []int{1, 2}, Nonce: 2, Err: no},
+	}, []Expect{{tSDS, []int{1, 2}}}, "")
 }
 
 // ---------------------------------------------------------------- tables and deltaWatchedResources
